@@ -785,3 +785,258 @@ Proof.
   - unfold vector_keyword, getV. cbn [snd List.length]. destruct n; [inversion Hn | reflexivity].
   - intro p. unfold vector_keyword, getV. cbn [snd orb]. reflexivity.
 Qed.
+
+(* ------------------------------------------------------------------------------------------------ *)
+(* module-level pending configuration                                                               *)
+(* ------------------------------------------------------------------------------------------------ *)
+
+(* with the clear() at the start, the result of a configuration does not depend on what an earlier one left queued,
+   nor on its error flag *)
+Lemma pending_irrelevant cvs bt st p e :
+  parse_config_ext true cvs bt (mkMState (mkLists (l_colvars (ms_lists st)) (l_biases (ms_lists st)) e) p)
+  = parse_config_ext true cvs bt st.
+Proof. unfold parse_config_ext. cbn [ms_lists ms_pending l_colvars l_biases]. reflexivity. Qed.
+
+(* a configuration whose first variable is rejected leaves the visible state as it was, whatever it queued ... *)
+Lemma rejected_first_visible b r bt st : k_fails (cb_block b) = true ->
+  visible (parse_config_ext true (b :: r) bt st) = visible st /\ l_err (ms_lists (parse_config_ext true (b :: r) bt st)) = true.
+Proof.
+  intro Hf. unfold parse_config_ext, visible. cbn [map parse_colvars l_colvars l_biases l_err]. rewrite Hf. cbn [orb l_err].
+  cbn [ms_lists l_colvars l_biases l_err]. rewrite removelast_snoc. split; reflexivity.
+Qed.
+
+(* ... and the next configuration behaves exactly as if the rejected one had never been supplied *)
+Lemma rejected_then_next b r bt st cvs2 bt2 : k_fails (cb_block b) = true ->
+  parse_config_ext true cvs2 bt2 (parse_config_ext true (b :: r) bt st) = parse_config_ext true cvs2 bt2 st.
+Proof.
+  intro Hf. destruct (rejected_first_visible b r bt st Hf) as [Hv _]. unfold visible in Hv.
+  assert (H1 : l_colvars (ms_lists (parse_config_ext true (b :: r) bt st)) = l_colvars (ms_lists st)) by congruence.
+  assert (H2 : l_biases (ms_lists (parse_config_ext true (b :: r) bt st)) = l_biases (ms_lists st)) by congruence.
+  unfold parse_config_ext at 1. rewrite H1, H2. reflexivity.
+Qed.
+
+(* the same for ANY rejected configuration, relative to the objects that it legitimately left defined *)
+Lemma after_any_config cvs bt st cvs2 bt2 :
+  parse_config_ext true cvs2 bt2 (parse_config_ext true cvs bt st)
+  = parse_config_ext true cvs2 bt2 (mkMState (ms_lists (parse_config_ext true cvs bt st)) []).
+Proof. unfold parse_config_ext at 1 3. reflexivity. Qed.
+
+(* without the clear() (seeded change C10_3): a rejected variable with legacy walls, then a valid configuration that
+   contains no walls: the valid configuration gains the harmonicWalls bias queued by the rejected one *)
+Lemma pending_noclear_refuted :
+  exists b st v,
+    k_fails (cb_block b) = true /\
+    visible (parse_config_ext false [v] [] (parse_config_ext false [b] [] st)) <> visible (parse_config_ext false [v] [] st) /\
+    visible (parse_config_ext true [v] [] (parse_config_ext true [b] [] st)) = visible (parse_config_ext true [v] [] st).
+Proof.
+  exists (mkCBlock (mkBlock "d" "colvar" true) (Some (mkBlock "dw" "harmonicwalls" false))),
+         (mkMState (mkLists ["zz0"%string] [("hh0", "harmonic")%string] false) []),
+         (mkCBlock (mkBlock "d" "colvar" false) None).
+  split; [reflexivity|]. split; [vm_compute; discriminate | vm_compute; reflexivity].
+Qed.
+
+(* ================================================================================================ *)
+(* Round 4: invariants of ACCEPTED configurations                                                    *)
+(* ================================================================================================ *)
+
+Lemma x_err_flag_input c x : x_err (flag_input c x) = c || x_err x.
+Proof. unfold flag_input. destruct c; reflexivity. Qed.
+
+Ltac split_or H :=
+  repeat match type of H with
+  | (_ || _) = false => let H1 := fresh H in let H2 := fresh H in
+                        apply orb_false_iff in H; destruct H as [H1 H2]; try split_or H1; try split_or H2
+  end.
+
+(* Generic tactic: the control flow of a validator depends on finitely many boolean tests; the invariants are stated
+   with the SAME boolean terms, so destructing the tests in the order of the code and simplifying decides them. *)
+Ltac vcase :=
+  repeat match goal with
+  | |- context [match ?x with (_, _) => _ end] => destruct x
+  end;
+  repeat match goal with
+  | |- context [if ?c then _ else _] => let E := fresh "E" in destruct c eqn:E; cbn [fst snd negb andb orb] in *
+  end.
+
+Definition colvarx_inv (s : cvx) : bool :=
+  Qltb Q0 (vx_width s) && (0 <=? vx_tsf s) &&
+  match vx_lb s, vx_ub s with Some l, Some u => Qltb l u | _, _ => true end &&
+  (negb (vx_ext s) || (Qltb Q0 (vx_temp s) && Qltb Q0 (vx_fluct s) && Qltb Q0 (vx_tc s) && Qle_bool Q0 (vx_damping s))).
+
+Ltac orb_simpl H :=
+  cbn [negb andb orb] in H; repeat rewrite ?orb_true_r, ?orb_false_r, ?andb_true_r, ?andb_false_r in H; cbn [negb andb orb] in H.
+
+(* finish: destruct the boolean tests that the goal still mentions, then the hypothesis decides *)
+Ltac vfin H :=
+  repeat match goal with
+  | |- context [Qle_bool ?a ?b] => let E := fresh "E" in destruct (Qle_bool a b) eqn:E
+  | |- context [Qeq_bool ?a ?b] => let E := fresh "E" in destruct (Qeq_bool a b) eqn:E
+  | |- context [egiven ?e ?k] => let E := fresh "E" in destruct (egiven e k) eqn:E
+  end;
+  cbn [negb andb orb]; try reflexivity; orb_simpl H; try discriminate H; try congruence.
+
+Lemma colvarx_accept temp e :
+  x_err (fst (colvarx_validate temp e)) = false -> colvarx_inv (snd (colvarx_validate temp e)) = true.
+Proof.
+  unfold colvarx_validate, colvarx_inv, Qltb.
+  destruct (eint TInt e "timeStepFactor" 1) as [tsf p0].
+  destruct (ereal e "width" (1 # 1)) as [w p1].
+  destruct (ereal e "lowerBoundary" Q0) as [lb p2].
+  destruct (ereal e "upperBoundary" w) as [ub p3].
+  destruct (ereal e "extendedTemp" temp) as [tp p4].
+  destruct (ereal e "extendedFluctuation" Q0) as [fl p5].
+  destruct (ereal e "extendedTimeConstant" (200 # 1)) as [tc p6].
+  destruct (ereal e "extendedLangevinDamping" (1 # 1)) as [g p7].
+  destruct (Qle_bool w Q0) eqn:Ew; destruct (tsf <? 0) eqn:Et; destruct (eflag e "extendedLagrangian" false) eqn:Ex;
+    cbn [negb andb orb fst snd];
+    try (rewrite !x_err_flag_input; cbn [x_err no_errs]; rewrite ?orb_true_r; cbn [orb]; discriminate).
+  all: try (destruct (Qle_bool tp Q0) eqn:Etp; [cbn [fst]; rewrite x_err_flag_input; discriminate|];
+            destruct (Qle_bool fl Q0) eqn:Efl; [cbn [fst]; rewrite x_err_flag_input; discriminate|]).
+  all: cbn [fst snd vx_width vx_tsf vx_lb vx_ub vx_ext vx_temp vx_fluct vx_tc vx_damping negb andb orb];
+       rewrite !x_err_flag_input; cbn [x_err no_errs]; intro H.
+  all: assert (Ht : (0 <=? tsf) = true) by (apply Z.leb_le; b2p; lia); rewrite Ht.
+  all: try (rewrite Ew in H); try (rewrite Etp); try (rewrite Efl).
+  all: vfin H.
+Qed.
+
+Definition opesx_inv (s : opesx) : bool :=
+  Qle_bool Q0 (ox_barrier s) && match ox_bf s with Some b => negb (Qle_bool b (1 # 1)) | None => true end &&
+  negb (Qle_bool (ox_eps s) Q0) && negb (Qle_bool (ox_cutoff s) Q0) &&
+  (Qeq_bool (ox_ct s) Q0 || (Qle_bool Q0 (ox_ct s) && Qle_bool (ox_ct s) (ox_cutoff s))).
+
+Lemma opesx_accept kbt bfinf explore e :
+  x_err (fst (opesx_validate kbt bfinf explore e)) = false -> opesx_inv (snd (opesx_validate kbt bfinf explore e)) = true.
+Proof.
+  unfold opesx_validate, opesx_inv, Qltb.
+  destruct (eint TStep e "newHillFrequency" 0) as [pace p0].
+  destruct (ereal e "barrier" Q0) as [ba p1].
+  destruct (ereal e "biasfactor" (ba / kbt)) as [bfv p2].
+  destruct (ereal e "epsilon" Q0) as [eps p3].
+  destruct (ereal e "kernelCutoff" Q0) as [cut p4].
+  destruct (ereal e "compressionThreshold" (1 # 1)) as [ct p5].
+  destruct (pace <=? 0) eqn:Ep; [cbn; discriminate|].
+  destruct (Qle_bool Q0 ba) eqn:Eb; cbn [negb]; [|cbn; discriminate].
+  destruct (bfinf && explore) eqn:Ei; [cbn; discriminate|].
+  destruct (negb bfinf && (p2 || Qle_bool bfv (1 # 1))) eqn:Ef; [cbn; discriminate|].
+  destruct (Qle_bool eps Q0) eqn:Ee; [cbn; discriminate|].
+  destruct (Qle_bool cut Q0) eqn:Ec; [cbn; discriminate|].
+  destruct (negb (Qeq_bool ct Q0) && (negb (Qle_bool Q0 ct) || negb (Qle_bool ct cut))) eqn:Et; [cbn; discriminate|].
+  cbn [fst snd ox_barrier ox_bf ox_eps ox_cutoff ox_ct]. intros _. rewrite Eb, Ee, Ec. cbn [negb andb].
+  destruct bfinf; cbn [negb andb] in *.
+  - destruct (Qeq_bool ct Q0); cbn [negb andb orb] in *; [reflexivity|].
+    destruct (Qle_bool Q0 ct); destruct (Qle_bool ct cut); cbn in *; congruence.
+  - apply orb_false_iff in Ef. destruct Ef as [_ Ef]. rewrite Ef. cbn [negb andb].
+    destruct (Qeq_bool ct Q0); cbn [negb andb orb] in *; [reflexivity|].
+    destruct (Qle_bool Q0 ct); destruct (Qle_bool ct cut); cbn in *; congruence.
+Qed.
+
+Lemma metax_accept n e :
+  x_err (fst (metax_validate n e)) = false ->
+  negb (Qle_bool (mx_weight (snd (metax_validate n e))) Q0) = true /\ mx_sigmas (snd (metax_validate n e)) = n.
+Proof.
+  unfold metax_validate, Qltb.
+  destruct (ereal e "hillWeight" Q0) as [hw p0].
+  destruct (eint TSize e "newHillFrequency" 1000) as [nhf pf1].
+  destruct (eint TSize e "gridsUpdateFrequency" nhf) as [guf pf2].
+  destruct (getV (elist e "gaussianSigmas") []) as [sig es].
+  destruct (ereal e "hillWidth" Q0) as [hwid p1].
+  destruct (Nat.eqb (if negb (Qle_bool hwid Q0) then n else List.length sig) n) eqn:En; cbn [negb];
+    [| cbn [fst]; rewrite x_err_flag_input; discriminate].
+  destruct (ereal e "biasTemperature" (-1 # 1)) as [bt p2].
+  cbn [fst snd mx_weight mx_sigmas]. rewrite !x_err_flag_input. cbn [x_err no_errs]. intro H.
+  split; [| apply Nat.eqb_eq; exact En].
+  destruct (Qle_bool hw Q0); [orb_simpl H; discriminate H | reflexivity].
+Qed.
+
+Lemma abfshared_accept rof e :
+  x_err (fst (abfshared_validate rof e)) = false -> eflag e "shared" false = true ->
+  let '(ofr, sf) := snd (abfshared_validate rof e) in (sf =? 0) || (ofr mod sf =? 0) = true.
+Proof.
+  unfold abfshared_validate. destruct (eint TSize e "outputFreq" rof) as [ofr p0].
+  intros H Hs. rewrite Hs in *. destruct (eint TSize e "sharedFreq" ofr) as [sf p1].
+  destruct (negb (sf =? 0) && negb (ofr mod sf =? 0)) eqn:E; [cbn in H; discriminate H|].
+  cbn [snd]. destruct (sf =? 0); destruct (ofr mod sf =? 0); cbn in *; congruence.
+Qed.
+
+Lemma alb_accept n e :
+  x_err (fst (alb_validate n e)) = false ->
+  2 <= fst (snd (alb_validate n e)) /\ snd (snd (alb_validate n e)) = n.
+Proof.
+  unfold alb_validate.
+  destruct (match elist e "centers" with None => ([], true) | Some ts => getV (Some ts) (repeat Q0 n) end) as [c ec].
+  destruct (eint TInt e "UpdateFrequency" 0) as [uf p0].
+  cbn [fst snd]. rewrite !x_err_flag_input. cbn [x_err no_errs]. intro H.
+  apply orb_false_iff in H. destruct H as [Hh H]. apply orb_false_iff in H. destruct H as [_ H].
+  apply orb_false_iff in H. destruct H as [H _]. apply orb_false_iff in H. destruct H as [_ Hl].
+  apply negb_false_iff in Hl. apply Nat.eqb_eq in Hl. b2p. split; [lia | exact Hl].
+Qed.
+
+Lemma kmoving_accept rof e :
+  x_err (fst (kmoving_validate rof e)) = false ->
+  let s := snd (kmoving_validate rof e) in
+  Qle_bool Q0 (kx_k s) = true /\ (kx_changing s = true -> kx_nsteps s <> 0).
+Proof.
+  unfold kmoving_validate, Qltb.
+  destruct (ereal e "forceConstant" (1 # 1)) as [k p0].
+  destruct (ereal e "targetForceConstant" Q0) as [tfk p1].
+  destruct (eint TStep e "targetNumSteps" 0) as [ns p2].
+  destruct (eint TInt e "targetNumStages" 0) as [ng p3].
+  destruct (getV (elist e "lambdaSchedule") []) as [sched esch].
+  assert (Hk : x_err (flag_input (p0 || negb (Qle_bool Q0 k)) no_errs) = false -> Qle_bool Q0 k = true).
+  { intros H. rewrite x_err_flag_input in H. cbn [x_err no_errs] in H. destruct (Qle_bool Q0 k); [reflexivity | orb_simpl H; discriminate H]. }
+  destruct (egiven e "targetForceConstant" && eflag e "decoupling" false) eqn:E1; [cbn [fst]; rewrite x_err_flag_input; discriminate|].
+  destruct (negb (eflag e "decoupling" false || egiven e "targetForceConstant")) eqn:E2.
+  - cbn [fst snd kx_k kx_changing]. rewrite x_err_flag_input. intro H. apply orb_false_iff in H. destruct H as [_ H].
+    split; [apply (Hk H) | discriminate].
+  - destruct (ns =? 0) eqn:En; [cbn [fst]; rewrite x_err_flag_input; discriminate|].
+    destruct (elist_given e "lambdaSchedule" && (0 <? ng)) eqn:E3; [cbn [fst]; rewrite x_err_flag_input; discriminate|].
+    cbn [fst snd kx_k kx_changing kx_nsteps]. rewrite x_err_flag_input. intro H. apply orb_false_iff in H. destruct H as [_ H].
+    split; [apply (Hk H) | intros _; b2p; assumption].
+Qed.
+
+Lemma getV_presized_length n ts v e : (0 < n)%nat -> getV (Some ts) (repeat Q0 n) = (v, e) -> List.length v = n.
+Proof.
+  intros Hn H. unfold getV in H. destruct ts as [|t tr].
+  - assert (v = repeat Q0 n) by congruence. subst. apply repeat_length.
+  - destruct n as [|n']; [inversion Hn|]. cbn [repeat] in H.
+    rewrite <- (repeat_length Q0 (S n')). cbn [repeat]. eapply read_into_length. exact H.
+Qed.
+
+(* harmonicWalls: accepted => at least one list of walls; every list that is given has one wall per variable; with both
+   lists every lower wall is below its upper wall (and not within 1e-6 of it) and the two constants are non-zero *)
+Lemma walls_accept n e : (0 < n)%nat ->
+  x_err (fst (walls_validate n e)) = false ->
+  let s := snd (walls_validate n e) in
+  (wx_lower s <> [] \/ wx_upper s <> []) /\
+  (wx_lower s <> [] -> List.length (wx_lower s) = n) /\ (wx_upper s <> [] -> List.length (wx_upper s) = n) /\
+  (wx_lower s <> [] -> wx_upper s <> [] ->
+     pairwise_lt (wx_lower s) (wx_upper s) = true /\ pairwise_apart (wx_lower s) (wx_upper s) = true /\
+     Qeq_bool (wx_lk s * wx_uk s) Q0 = false).
+Proof.
+  intro Hn. unfold walls_validate.
+  destruct (ereal e "forceConstant" (1 # 1)) as [fk p0].
+  destruct (match elist e "lowerWalls" with None => ([], false) | Some ts => getV (Some ts) (repeat Q0 n) end) as [lw el] eqn:El.
+  destruct (match elist e "upperWalls" with None => ([], false) | Some ts => getV (Some ts) (repeat Q0 n) end) as [uw eu] eqn:Eu.
+  assert (Hll : lw <> [] -> List.length lw = n).
+  { intro Hne. destruct (elist e "lowerWalls") as [ts|]; [eapply getV_presized_length; eauto | exfalso; apply Hne; congruence]. }
+  assert (Hlu : uw <> [] -> List.length uw = n).
+  { intro Hne. destruct (elist e "upperWalls") as [ts|]; [eapply getV_presized_length; eauto | exfalso; apply Hne; congruence]. }
+  assert (Hz : forall l : list Q, Nat.eqb (List.length l) 0 = true -> l = []).
+  { intros l H. apply Nat.eqb_eq in H. destruct l; [reflexivity | discriminate H]. }
+  assert (Hnz : forall l : list Q, Nat.eqb (List.length l) 0 = false -> l <> []).
+  { intros l H Hl. subst l. discriminate H. }
+  destruct (Nat.eqb (List.length lw) 0) eqn:E1; destruct (Nat.eqb (List.length uw) 0) eqn:E2; cbn [andb negb].
+  - cbn [fst]. rewrite x_err_flag_input. discriminate.
+  - destruct (ereal e "upperWallConstant" fk) as [uk p2]. cbn [fst snd wx_lower wx_upper]. intros _.
+    split; [right; apply Hnz; exact E2|]. split; [exact Hll|]. split; [exact Hlu|].
+    intros Hne. exfalso. apply Hne. apply Hz. exact E1.
+  - destruct (ereal e "lowerWallConstant" fk) as [lk p1]. cbn [fst snd wx_lower wx_upper]. intros _.
+    split; [left; apply Hnz; exact E1|]. split; [exact Hll|]. split; [exact Hlu|].
+    intros _ Hne. exfalso. apply Hne. apply Hz. exact E2.
+  - destruct (ereal e "lowerWallConstant" fk) as [lk p1]. destruct (ereal e "upperWallConstant" fk) as [uk p2].
+    destruct (negb (pairwise_lt lw uw) || negb (pairwise_apart lw uw)) eqn:Ep; [cbn [fst]; rewrite x_err_flag_input; discriminate|].
+    destruct (Qeq_bool (lk * uk) Q0) eqn:Ek; [cbn [fst]; rewrite x_err_flag_input; discriminate|].
+    cbn [fst snd wx_lower wx_upper wx_lk wx_uk]. intros _.
+    split; [left; apply Hnz; exact E1|]. split; [exact Hll|]. split; [exact Hlu|]. intros _ _.
+    apply orb_false_iff in Ep. destruct Ep as [Ea Eb]. apply negb_false_iff in Ea, Eb. repeat split; assumption.
+Qed.
